@@ -18,6 +18,7 @@
 -/
 import KiraModel.Proofs.WavConv
 import KiraModel.Proofs.WavDecoderLemmas
+import KiraModel.Proofs.WavTruncLemmas
 
 namespace K
 open Wav Dec
@@ -303,6 +304,30 @@ theorem C18_eof_loop_fuel_independent {α σ π : Type} (next : σ → Except Bo
     (fuel₁ fuel₂ : Nat) (h₁ : ps.length < fuel₁) (h₂ : ps.length < fuel₂) (acc : List (Frame α)) :
     loadLoop next dec fuel₁ s acc = loadLoop next dec fuel₂ s acc := by
   rw [loadLoop_run next dec hrun fuel₁ acc h₁, loadLoop_run next dec hrun fuel₂ acc h₂]
+
+/-! ## 6. truncated files -/
+
+/-- **a truncated file gives the valid prefix** (partial).  Cut an encoded 1- or 2-channel file
+    anywhere at or after the end of its 44-byte header: the static loader returns `Ok` with the
+    header's sample rate and exactly the frames that are wholly present — a prefix of the full
+    load, the cut frame dropped, nothing invented.
+
+    Full statement wanted by the property: *every* truncation and *every* single-point corruption
+    of *any* valid file (any container/codec) gives `Err` or a valid prefix, never a panic or hang.
+    Missing: cuts inside the header (`t < 44`: the model and kira both answer `Err`, checked by the
+    correspondence only), corruptions (the model predicts kira's answer on every generated
+    mutation — including the zero-sample-rate panic — but there is no theorem), and everything
+    about Symphonia's real parsers, which are third-party and only tested. -/
+theorem C18_truncated_file_prefix_partial {α : Type} [Add α] [Sub α] [Mul α] [Div α] [Neg α] [LT α] [LE α]
+    [DecidableLT α] [DecidableLE α] [OfScientific α] [KOps α]
+    (fd : FloatDec α) (s : Spec) (hs : s.Decodable)
+    (hch : s.channels = 1 ∨ s.channels = 2) (m : Nat) (codes : List Nat)
+    (hlen : codes.length = m * s.channels) (hr : InRange s.fmt codes)
+    (hL : FitsRiff (codes.length * s.fmt.bytes)) (t : Nat) (ht : 44 ≤ t) :
+    loadStatic fd (encode s codes) = .ok (s.rate, fileFrames fd s m codes) ∧
+    loadStatic fd ((encode s codes).take t)
+      = .ok (s.rate, (fileFrames fd s m codes).take ((t - 44) / (s.channels * s.fmt.bytes))) :=
+  ⟨loadStatic_encode fd s hs hch m codes hlen hr hL, loadStatic_truncated fd s hs hch m codes hlen hr hL t ht⟩
 
 /-! ## non-vacuity -/
 
